@@ -79,6 +79,12 @@ impl<S> RequestHandler<S> for FilePathServer {
 
         Box::pin(async move {
             let file_path = request.uri.strip_prefix('/').unwrap_or(&request.uri);
+
+            // Avoid path traversal exploits
+            if file_path.contains("..") || file_path.contains(':') {
+                return error_handler(StatusCode::NotFound);
+            }
+
             let path = format!("{}/{}", directory_path.to_str().unwrap(), file_path);
 
             let path_buf = PathBuf::from(path);
